@@ -572,8 +572,13 @@ def parse_sig(h):
     return name, args, ret
 
 
+class FuncTable(dict):
+    allocs = None
+
+
 def parse_mir(text):
-    funcs = {}
+    funcs = FuncTable()
+    allocs = funcs.allocs = {}
     order = []
     lines = text.split("\n")
     i = 0
@@ -625,10 +630,14 @@ def parse_mir(text):
                     f.const_value = parse_operand(rest[eq + 1:].strip().rstrip(";"))
                     funcs.setdefault(name, f)
             elif line.startswith("alloc"):
+                m_ = re.match(r"(alloc\d+) \(static: ([^,]+),", line)
+                if m_:
+                    allocs[m_.group(1)] = m_.group(2).strip()
                 # memory dump of a constant; skip to closing brace
-                while i < n and not lines[i].startswith("}"):
+                if not line.rstrip().endswith("{}"):
+                    while i < n and not lines[i].startswith("}"):
+                        i += 1
                     i += 1
-                i += 1
             else:
                 raise MirSyntaxError("top-level line %d: %r" % (i, line[:120]))
             continue
